@@ -351,6 +351,13 @@ def _eval_under(prog, fi: FuncInfo, expr: ast.AST | None, node: Node, env: dict[
                 return env[e.id]
             if len(defs) == 1 and defs[0].kind == "assign" and defs[0].value is not None:
                 return ev(defs[0].value, defs[0].node, depth + 1)
+            if not defs:
+                # a module-level constant (`_BACKUP_SUFFIX = ".orig"`)
+                from ..loader import ConstInfo as _CI
+
+                r_ = prog.repo.lookup(e.id, fi.module, fi)
+                if isinstance(r_, _CI) and isinstance(r_.value, ast.Constant):
+                    return r_.value.value
             raise Unknown
         if isinstance(e, ast.UnaryOp) and isinstance(e.op, ast.Not):
             return not ev(e.operand, n, depth + 1)
